@@ -27,6 +27,12 @@ func c19dialect(d string) ([]qsql.ConfigFunc, string, bool) {
 		return []qsql.ConfigFunc{qsql.EscapeChar('´')}, "´", false
 	case "esc3": // three bytes of UTF-8, together with incrementing placeholders
 		return []qsql.ConfigFunc{qsql.EscapeChar('”'), qsql.Incrementing()}, "”", true
+	case "incr_mysql": // options are independent: a dialect preset chosen after Incrementing keeps the $n markers
+		return []qsql.ConfigFunc{qsql.Incrementing(), qsql.MySQL()}, "`", true
+	case "incr_sqlite":
+		return []qsql.ConfigFunc{qsql.Incrementing(), qsql.SQLite()}, "\"", true
+	case "incr_esc":
+		return []qsql.ConfigFunc{qsql.Incrementing(), qsql.EscapeChar('"')}, "\"", true
 	case "plain":
 		return nil, "", false
 	case "incr":
@@ -269,9 +275,10 @@ func VX_C19_sequence() {
 func VX_C19_precision() {
 	vxsql.Reset()
 	lead := vx.Bool()
-	rows := [][]interface{}{{1.234}, {nil}, {2.5}, {nil}}
+	// negative and positive exact ties at the second decimal, ordinary values, NULLs
+	rows := [][]interface{}{{1.234}, {nil}, {2.5}, {nil}, {-0.125}, {-1.375}, {0.125}, {-2.5}}
 	if lead {
-		rows = [][]interface{}{{nil}, {1.234}, {nil}, {2.5}}
+		rows = [][]interface{}{{nil}, {1.234}, {nil}, {2.5}, {-1.375}, {0.125}, {-0.125}, {-2.5}}
 	}
 	vxsql.SetResult([]string{"f"}, rows)
 	opts := []qsql.ConfigFunc{qsql.Query("select"), qsql.Precision(2)}
@@ -286,8 +293,8 @@ func VX_C19_precision() {
 	}
 	vxsql.SetResult([]string{"f"}, rows)
 	g := ReadSQL(vxsql.Tx(), opts...)
-	vx.Check(g.Err == nil && g.Len() == 4, "ReadSQL with Precision: no error")
-	if g.Err != nil || g.Len() != 4 {
+	vx.Check(g.Err == nil && g.Len() == len(rows), "ReadSQL with Precision: no error")
+	if g.Err != nil || g.Len() != len(rows) {
 		return
 	}
 	v := g.MustFloatView("f")
